@@ -110,6 +110,8 @@ structure ConnOut where
   /-- return value: number of vertices after the compaction -/
   numConnVerts : Nat
   tags : Nat
+  /-- the start face configurations in decoding order -/
+  startFaces : List Bool := []
 
 def topoC : Nat := Generated.TOPOLOGY_C.toNat
 def topoS : Nat := Generated.TOPOLOGY_S.toNat
@@ -356,6 +358,7 @@ def connLoop (ci : ConnIn) (tr : Trav) : R ConnOut := do
   -- start faces
   let mut startFace := tr.startFace
   let mut startFaceBits := tr.startFaceBits
+  let mut startBits : List Bool := []
   if stack.size > 1 then tags := tags ||| tg_components_1
   for _ in [0:stack.size] do
     if stack.isEmpty then break
@@ -370,6 +373,7 @@ def connLoop (ci : ConnIn) (tr : Trav) : R ConnOut := do
       let (b, sf) := startFace.nextBit
       startFace := sf
       interior := b
+    startBits := interior :: startBits
     if interior then
       tags := tags ||| tg_start_interior
       if numFaces ≥ ci.numFaces then throw .fail
@@ -446,7 +450,7 @@ def connLoop (ci : ConnIn) (tr : Trav) : R ConnOut := do
     hole ← wrB "is_vert_hole_" hole srcVert false
     numVertices := numVertices - 1
   if numVertices < 0 then throw (.ub "negative vertex count")
-  pure { c2v, opp, vc, hole, numConnVerts := numVertices.toNat, tags }
+  pure { c2v, opp, vc, hole, numConnVerts := numVertices.toNat, tags, startFaces := startBits.reverse }
 
 /-- `MeshAttributeCornerTable` built by `InitEmpty`, `AddSeamEdge`, `RecomputeVertices`, plus
     the decoder's `AttributeData` bookkeeping -/
@@ -706,6 +710,8 @@ open DecM in
 def startTraversal (ver kind numAtt numVerts numFaces : Nat) : DecM Trav := do
   let legacy := ver < 2 * 256 + 2
   let mut sym := BitReader.start []
+  -- `at:<kind>:<bytes remaining>` tags: offsets for the stream transcoder of tools/props/legacycases.py
+  tag s!"at:traversal:{← remaining}"
   if kind != 2 || legacy then
     -- DecodeTraversalSymbols: the bit decoder covers the whole remaining buffer
     let size ← lift (readBitRegionSize legacy)
@@ -723,9 +729,13 @@ def startTraversal (ver kind numAtt numVerts numFaces : Nat) : DecM Trav := do
     require (size ≤ rest.length)
     lift (skipBytes size)
   else
+    let r0 ← remaining
     startFace ← lift (ransBitStart false)
+    tag s!"at:startface:{r0}:{← remaining}"
   -- DecodeAttributeSeams
-  let seams ← replicateM' numAtt (lift (ransBitStart legacy))
+  let seams ← replicateM' numAtt (do
+    tag s!"at:rans:{← remaining}"
+    lift (ransBitStart legacy))
   if kind == 0 then
     pure { kind, legacy, sym, startFace, startFaceBits, seams := seams.toArray }
   else if kind == 1 then
@@ -743,6 +753,7 @@ def startTraversal (ver kind numAtt numVerts numFaces : Nat) : DecM Trav := do
       let mode ← rdI8
       require (mode == 0)          -- EDGEBREAKER_VALENCE_MODE_2_7
     alloc "valence_decoder.vertex_valences" (4 * numVerts)
+    tag s!"at:valence_contexts:{← remaining}"
     let mut ctxSyms : Array (Array Nat) := #[]
     let mut ctxCnt : Array Int := #[]
     -- min_valence_ = 2, max_valence_ = 7
@@ -773,6 +784,7 @@ def decodeConnectivity : DecM Mesh := do
   let legacy := ver < 2 * 256 + 2
   -- InitializeDecoder
   let travType ← rdU8
+  tag s!"at:after_traversal_type:{← remaining}"
   require (travType ≤ 2)
   if legacy then tag s!"legacy:connectivity:{ver / 256}.{ver % 256}"
   if travType == 1 then tag "traversal:predictive"
@@ -816,10 +828,14 @@ def decodeConnectivity : DecM Mesh := do
     splits := sp
     eventBytes := used
   else
+    let r0 ← remaining
     splits ← decodeTopologySplits ver numFaces
+    tag s!"at:events:{r0}:{← remaining}"
   let tr ← startTraversal ver travType numAtt numVerts numFaces
+  tag s!"at:traversal_end:{← remaining}"
   let co ← liftR (connLoop { numFaces, maxNumVertices := numVerts, numSymbols, splits,
                              removeInvalid := numAtt == 0 } tr)
+  tag ("at:startface_bits:" ++ String.join (co.startFaces.map fun b => if b then "1" else "0") ++ ":")
   -- the main buffer continues behind the traversal data; the split data decoded earlier is skipped
   if legacy then lift (skipBytes eventBytes)
   -- attribute seams
